@@ -20,7 +20,7 @@ import warnings
 import numpy as np
 import scipy.ndimage
 
-from harness import core, tlc, fcsgen
+from harness import core, tlc, fcsgen, loadform
 from harness.core import run_driver
 
 import FlowCal.io  # noqa
@@ -68,7 +68,7 @@ class Samples(object):
         fcsgen.write_sample(self.path, ev, ['a', 'b', 'c'], [R, R, R], bits=16, datatype=dt, pne=['0,0'] * 3)
         with warnings.catch_warnings():
             warnings.simplefilter('ignore')
-            return FlowCal.io.FCSData(self.path)
+            return FlowCal.io.FCSData(loadform.arg(self.path))
 
 
 def gen_part(chk, S):
